@@ -203,9 +203,11 @@ def gen_call_3d(rng, m, kind='reader', in_range=True):
     if k == 8:
         return ['get_tracefield_values', rng.choice(m['stored'] + [37]) if m['stored'] else 37]
     if k == 9:
-        return ['read_correlated_diagonal', rng.randrange(-(n_xl - 1), n_il)]
+        cd = rng.randrange(-(n_xl - 1), n_il)
+        return ['read_correlated_diagonal', cd] + _diag_crop(rng, len(diagonal_traces('c', cd, n_il, n_xl)), n_s)
     if k == 10:
-        return ['read_anticorrelated_diagonal', rng.randrange(0, n_il + n_xl - 1)]
+        ad = rng.randrange(0, n_il + n_xl - 1)
+        return ['read_anticorrelated_diagonal', ad] + _diag_crop(rng, len(diagonal_traces('a', ad, n_il, n_xl)), n_s)
     if k == 11:
         return ['read_inline_number', int(m['ilines'][_idx(rng, n_il, bs[0])])]
     if k == 12:
@@ -221,6 +223,34 @@ def gen_call_3d(rng, m, kind='reader', in_range=True):
     dz = zs[1] - zs[0] if n_s > 1 else 1.0
     stop = float(zs[f]) if f < n_s else float(zs[-1] + dz)
     return ['get_trace_by_coord', _idx(rng, ntr, 4), float(zs[e]), stop]
+
+
+def diagonal_traces(family, d_id, n_il, n_xl):
+    """(il, xl) ordinals of the traces of a diagonal, in the order the reader returns them."""
+    if family == 'c':
+        if d_id >= 0:
+            return [(d + d_id, d) for d in range(min(n_il - d_id, n_xl))]
+        return [(d, d - d_id) for d in range(min(n_il, n_xl + d_id))]
+    if d_id < n_xl:
+        return [(d, d_id - d) for d in range(min(d_id + 1, n_il))]
+    first = d_id - n_xl + 1
+    return [(first + d, n_xl - 1 - d) for d in range(min(n_il - first, n_xl))]
+
+
+def _diag_crop(rng, length, n_s):
+    """Optional cropping arguments [min_idx, max_idx, min_sample, max_sample] of a diagonal read."""
+    c = rng.random()
+    if c < 0.45 or length < 1:
+        return []
+    a, b = (None, None)
+    if c < 0.85 and length >= 2:
+        a, b = _rng_pair(rng, length, 4)
+    z0, z1 = (None, None)
+    if rng.random() < 0.7:
+        z0, z1 = _rng_pair(rng, n_s, 16)
+    if a is None and z0 is None:
+        return []
+    return [a, b, z0, z1]
 
 
 def _gen_em_subvolume(rng, m):
@@ -294,6 +324,8 @@ def fixed_battery(m, kind='reader'):
               ['read_subvolume', n_il // 2, n_il // 2 + 1, n_xl // 3, n_xl // 3 + 2, max(0, n_s - 5), n_s],
               ['read_volume'], ['get_trace', 0], ['get_trace', ntr - 1], ['get_trace', ntr // 2, 1, min(n_s, 7)],
               ['read_correlated_diagonal', 0], ['read_correlated_diagonal', -(n_xl - 1) // 2],
+              ['read_correlated_diagonal', 0, 0, min(n_il, n_xl), n_s // 3, max(n_s // 3 + 1, (2 * n_s) // 3)],
+              ['read_anticorrelated_diagonal', min(n_il, n_xl) - 1, None, None, 0, max(1, n_s // 2)],
               ['read_anticorrelated_diagonal', 0], ['read_anticorrelated_diagonal', (n_il + n_xl - 2) // 2],
               ['read_inline_number', int(m['ilines'][-1])], ['read_crossline_number', int(m['xlines'][0])],
               ['read_zslice_coord', float(m['zslices'][-1])],
